@@ -82,17 +82,21 @@ pub fn check_c09(buf: &[u8], idx: usize, little: bool) -> Result<(), String> {
         k += 1;
     }
     if k != n { fail!("iteration yields {} items, len() == {}", k, n); }
-    // an entry type whose Rust struct size (16) differs from its ELF32 file size (8)
+    Ok(())
+}
+
+/// C09 (loop-free part): len()/is_empty() for a u32 table and for an entry type whose Rust struct size (16) differs from its
+/// ELF32 file size (8)
+pub fn check_c09_len(buf: &[u8], little: bool) -> Result<(), String> {
+    let e = if little { AnyEndian::Little } else { AnyEndian::Big };
+    let t = elf::parse::ParsingTable::<AnyEndian, u32>::new(e, Class::ELF64, buf);
+    let n = buf.len() / 4;
+    if t.len() != n { fail!("u32 table: len() == {} for {} bytes of 4-byte entries", t.len(), buf.len()); }
+    if t.is_empty() != (n == 0) { fail!("u32 table: is_empty() == {} but {} whole entries fit", t.is_empty(), n); }
     let t2 = elf::parse::ParsingTable::<AnyEndian, elf::relocation::Rel>::new(e, Class::ELF32, buf);
     let n2 = buf.len() / 8;
     if t2.len() != n2 { fail!("Rel/ELF32 table: len() == {} for {} bytes of 8-byte entries", t2.len(), buf.len()); }
     if t2.is_empty() != (n2 == 0) { fail!("Rel/ELF32 table: is_empty() == {} but {} whole 8-byte entries fit", t2.is_empty(), n2); }
-    match t2.get(idx) {
-        Ok(v) => { if idx >= n2 { fail!("Rel/ELF32 table: get({}) is Ok but len() == {}", idx, n2); }
-                   if v.r_offset != uval(little, &buf[idx * 8..idx * 8 + 4]) { fail!("Rel/ELF32 table: get({}).r_offset wrong", idx); } }
-        Err(_) => if idx < n2 { fail!("Rel/ELF32 table: get({}) is Err but len() == {}", idx, n2); },
-    }
-    if t2.iter().count() != n2 { fail!("Rel/ELF32 table: iteration does not yield len() == {} items", n2); }
     Ok(())
 }
 
